@@ -26,7 +26,7 @@ Inductive case :=
       intervals = (batch, interval in ns) pairs as the monitor computed them in Go float64 *)
 | Conc (id : Z) (T : float) (timeout_ms stat_ms : Z) (batches : list Z) (sched : list ev)
        (observed_labels : list Z) (observed : list obs).
-   (* k goroutines stepped through the yield points 201..205 of DoCheck: the schedule as
+   (* k goroutines stepped through the yield points (201 = Load, 202 = CAS) of DoCheck: the schedule as
       executed, the label each step parked at, and every caller's outcome *)
 
 Definition oobs_eqb (a : option out) (b : obs) : bool :=
